@@ -6,11 +6,46 @@ import (
 	"encoding/json"
 	"fmt"
 	"os"
+	"runtime"
 	"runtime/debug"
+	"sync/atomic"
+	"syscall"
 	"testing"
 	"testing/synctest"
 	"time"
 )
+
+// activity counts events of the harness API; the coordinator treats the run as quiet when it stops moving.
+var activity atomic.Int64
+
+func realNow() int64 {
+	var tv syscall.Timeval
+	syscall.Gettimeofday(&tv)
+	return tv.Sec*1_000_000 + int64(tv.Usec)
+}
+
+// waitQuiet waits until the other goroutines stopped making progress: nothing arrived at a gate, no
+// harness API call, for 3 ms of real time. (synctest.Wait cannot be used: a goroutine blocked on a
+// sync.Mutex held by a goroutine parked at a gate is not "durably blocked" for synctest.)
+func waitQuiet(done chan struct{}) {
+	last := activity.Load()
+	since := realNow()
+	for {
+		select {
+		case <-done:
+			return
+		default:
+		}
+		runtime.Gosched()
+		if a := activity.Load(); a != last {
+			last, since = a, realNow()
+			continue
+		}
+		if realNow()-since > 3000 {
+			return
+		}
+	}
+}
 
 // Outcome is what the native run of a harness produced; printed as one "ZZ-OUTCOME " line.
 type Outcome struct {
@@ -33,6 +68,7 @@ func RunReplay(t *testing.T, table map[string]func()) {
 	if fn == nil {
 		emit(Outcome{Status: "diverged", Note: "no harness " + r.Harness})
 	}
+	Tick = func() { activity.Add(1) }
 	synctest.Test(t, func(t *testing.T) {
 		Begin(time.Now())
 		out := Outcome{Status: "pass"}
@@ -42,6 +78,7 @@ func RunReplay(t *testing.T, table map[string]func()) {
 			st.mu.Lock()
 			quiesceWaiter = ch
 			st.mu.Unlock()
+			Tick()
 			<-ch
 		}
 		go func() {
@@ -62,7 +99,11 @@ func RunReplay(t *testing.T, table map[string]func()) {
 		stuck := 0
 	loop:
 		for {
-			synctest.Wait()
+			if len(r.Gates) > 0 {
+				waitQuiet(done)
+			} else {
+				synctest.Wait()
+			}
 			select {
 			case <-done:
 				break loop
